@@ -21,6 +21,7 @@ CONSTANTS
   MaxFail = 0
   MaxArm = 1
   MaxReq = 0
+  MaxRestart = 0
 INVARIANTS
   TypeOK
   ForwardSound
